@@ -54,9 +54,8 @@ Lemma oracle_sound_quote_lemma s :
   run_case (KQuote s (quote ws s) (Some [s]) (Some [s]) (Some [s]) (Some [s_x_eq ++ s])) = 0.
 Proof.
   unfold run_case, quote_oracle, quote_model_agrees, reading_eqb. cbn [option_eqb].
-  rewrite !strs_eqb_refl.
+  rewrite !strs_eqb_refl. cbn [first_false].
   rewrite (quote_meets_spec_lemma ws ws ws_sub s).
-  cbn [first_false].
   rewrite str_eqb_refl, predict_args_quote, predict_assign_quote, predict_decl_quote,
     predict_argeq_quote.
   cbn [agrees]. rewrite !strs_eqb_refl. reflexivity.
@@ -68,10 +67,13 @@ Proof. destruct sh; reflexivity. Qed.
 Lemma shape_eqb_refl sh : shape_eqb sh sh = true.
 Proof. destruct sh; reflexivity. Qed.
 
+Lemma shape_code_bit2 sh : N.testbit (shape_code sh) 2 = false.
+Proof. destruct sh; reflexivity. Qed.
+
 Lemma oracle_sound_exh_lemma s : exh_one s (shape_code (quote_shape ws s)) = 0.
 Proof.
-  unfold exh_one. rewrite shape_of_code_code. fold (quote ws s).
-  rewrite (quote_meets_spec_lemma ws ws ws_sub s). cbn [negb].
+  unfold exh_one. rewrite shape_code_bit2, shape_of_code_code. fold (quote ws s).
+  rewrite (quote_meets_spec_lemma ws ws ws_sub s).
   rewrite shape_eqb_refl, predict_args_quote, predict_assign_quote, predict_decl_quote,
     predict_argeq_quote.
   cbn [agrees]. rewrite !strs_eqb_refl. reflexivity.
